@@ -479,6 +479,35 @@ def check(run: Run) -> None:
         if not uses(fm):
             run.finding("C13.n", "InputDataCursor::modified:ignores-sampled-transition", "modified() no longer consults the sampled structural transition", loc=BASE)
 
+    with run.obligation("C13.o", "K7", "the three removed-accessors of a dictionary input agree about a retarget: removed_keys() takes its range from the data view (the target-link "
+                        "ops, which walk the PREVIOUS target's slots during a structural transition); a sibling that ranges over the CURRENT target's slots with the "
+                        "slot_removed predicate (which is false for the whole transition cycle) can never report a key that only the old target had "
+                        "(KNOWN FINDING F-C13-3 on the current tree)"):
+        DV = "src/hgraph/types/time_series/ts_input/dict_view.cpp"
+        fam = {}
+        for nm in ("removed_keys", "removed_values", "removed_items"):
+            fa_ = R.fn(run, DV, f"TSDInputView::{nm}")
+            cn_ = R.Canon()
+            delegates = any(cn_(c.fn).replace(" ", "") in (f"data_view().{nm}", "data_view().removed_keys") for c in R.calls(fa_))
+            own_range = [n_ for n_ in fa_.body.walk() if isinstance(n_, C.Desig) and n_.name == "predicate" and "removed_slot" in cn_(n_.value)]
+            aware = any(R.callee_name(c).split("::")[-1] in ("structural_transition_active", "sampled_structural_transition", "previous_target") for c in R.calls(fa_))
+            fam[nm] = (delegates, bool(own_range), aware)
+            run.count(1, "C13.o")
+        run.sample({"rule": "C13.o", "family": {k: {"delegates_to_link_ops": v[0], "ranges_over_current_target": v[1], "handles_transition": v[2]} for k, v in fam.items()}})
+        if not fam["removed_keys"][0]:
+            raise AnalysisError("model-mismatch", "C13.o: TSDInputView::removed_keys no longer delegates to the data view's removed range")
+        # the predicate the own ranges use is false during a transition (confirmed here, not assumed)
+        TLO = "src/hgraph/types/time_series/ts_input/target_link_ops.cpp"
+        fs = R.fn(run, TLO, "target_link_set_slot_removed")
+        cs = R.aliases_of(fs)
+        blind = any(isinstance(s0, C.If) and "structural_transition_active()" in cs(s0.cond) and [cs(r.e) for r in R.find(s0.then, lambda x: isinstance(x, C.Return))] == ["false"]
+                    for s0 in fs.body.walk())
+        for nm, (delegates, own, aware) in fam.items():
+            if own and not delegates and not aware and blind:
+                run.finding("C13.o", f"TSDInputView::{nm}:ranges-over-current-target-only", f"TSDInputView::{nm} ranges over the current target's slots with the slot_removed "
+                            "predicate, which is false during a structural transition, while removed_keys() reports the keys only the previous target had: at the cycle of a "
+                            "retarget A -> B a consumer that folds modified_items() + " + nm + "() keeps every A-only key", loc=DV)
+
 
 VARIANTS = [
     {"id": "i-owned-row-uses-peered-unbind", "expect": "C13.i", "edits": [{"file": ALT, "find": "                    &unbind_from_ref_owned,", "replace": "                    &unbind_from_ref_peered,"}]},
